@@ -15,6 +15,7 @@ import (
 	"path/filepath"
 	"sort"
 	"strings"
+	"sync"
 
 	"pgregory.net/rapid"
 
@@ -34,8 +35,43 @@ type world struct {
 	snap   snapshot
 }
 
+// scratchParent prefers a memory-backed directory (the check creates and lists a few
+// thousand tiny trees per second); stale trees of dead processes are swept once.
+var scratchOnce sync.Once
+var scratchDir string
+
+func scratchParent() string {
+	scratchOnce.Do(func() {
+		scratchDir = os.TempDir()
+		if d := os.Getenv("VERIF_C07_TMP"); d != "" {
+			scratchDir = d
+		} else if st, err := os.Stat("/dev/shm"); err == nil && st.IsDir() {
+			if f, err := os.CreateTemp("/dev/shm", "c07-probe-"); err == nil {
+				f.Close()
+				os.Remove(f.Name())
+				scratchDir = "/dev/shm"
+			}
+		}
+		ents, _ := os.ReadDir(scratchDir)
+		for _, e := range ents {
+			var pid, n int
+			if _, err := fmt.Sscanf(e.Name(), "c07-%d-%d", &pid, &n); err == nil && pid > 0 {
+				if _, err := os.Stat(fmt.Sprintf("/proc/%d", pid)); os.IsNotExist(err) {
+					os.RemoveAll(filepath.Join(scratchDir, e.Name()))
+				}
+			}
+		}
+	})
+	return scratchDir
+}
+
+var worldSeq int
+
 func newWorld() *world {
-	base, err := os.MkdirTemp("", "c07-")
+	worldSeq++
+	base := filepath.Join(scratchParent(), fmt.Sprintf("c07-%d-%d", os.Getpid(), worldSeq))
+	os.RemoveAll(base)
+	err := os.Mkdir(base, 0o755)
 	if err != nil {
 		panic(err)
 	}
@@ -159,6 +195,9 @@ type permit struct {
 	// noWriteSig: signature suffix used when a file INSIDE region changes although the
 	// operation may write no such file (stray write/close, rejected open …).
 	noWriteSig string
+	// craftedID: the operation carried an agent id that is not a single path component;
+	// it may create nothing at all, and whatever it creates is reported under this label.
+	craftedID string
 }
 
 func (p *permit) allowFile(path string, f func(old []byte, existed bool, cur []byte) string) {
@@ -203,6 +242,11 @@ func (w *world) judge(step int, desc string, p permit) *core.Violation {
 			if existed {
 				verb = "modified"
 			}
+			if p.craftedID != "" {
+				return core.V(p.writer+"|crafted-id|"+p.craftedID+"|file",
+					"step %d (%s): %s file %s (content %s) through an agent id that is not a single path component",
+					step, desc, verb, w.rel(f), short(cur.files[f]))
+			}
 			if p.noWriteSig != "" && inside(p.region, f) {
 				return core.V(p.writer+"|"+p.noWriteSig,
 					"step %d (%s): %s file %s (content now %s) although this operation must not write it",
@@ -240,8 +284,16 @@ func (w *world) judge(step int, desc string, p permit) *core.Violation {
 				ok = true
 			}
 		}
+		if !ok && p.craftedID != "" {
+			return core.V(p.writer+"|crafted-id|"+p.craftedID+"|dir",
+				"step %d (%s): created directory %s through an agent id that is not a single path component", step, desc, w.rel(d))
+		}
 		if !ok {
-			return core.V(p.writer+"|dir-outside|"+tin+"|"+where(p.region, d),
+			sig := p.writer + "|dir-outside|" + tin
+			if !p.targetIn {
+				sig += "|" + where(p.region, d)
+			}
+			return core.V(sig,
 				"step %d (%s): created directory %s, outside %s", step, desc, w.rel(d), w.rel(p.region))
 		}
 	}
@@ -328,6 +380,17 @@ func genName(t *rapid.T, own, other string) string {
 		s += pick("a0") + sep() + ord()
 	case 5: // down, up, and back into the own Download folder
 		s = pick("a0") + sep() + ".." + sep() + ".." + sep() + "Download" + sep() + ord()
+	case 6: // climb, step into a side directory, come back into the own Download folder
+		n := rapid.IntRange(1, 3).Draw(t, "ups")
+		for i := 0; i < n; i++ {
+			s += ".." + sep()
+		}
+		s += rapid.SampledFrom([]string{"zzz", "Download_x", other, "Screenshots"}).Draw(t, "side") + sep() + ".." + sep()
+		back := [][]string{{"Download"}, {own, "Download"}, {"agents", own, "Download"}}[n-1]
+		for _, b := range back {
+			s += b + sep()
+		}
+		s += ord()
 	default: // free grammar
 		n := rapid.IntRange(1, 6).Draw(t, "natoms")
 		if rapid.IntRange(0, 3).Draw(t, "lead") == 0 {
@@ -348,7 +411,9 @@ func genName(t *rapid.T, own, other string) string {
 
 // capUps rewrites surplus ".." components (beyond maxUps) to "u" so that nothing can
 // leave the walk root unobserved.
-func capUps(s string) string {
+func capUps(s string) string { return capUpsN(s, maxUps) }
+
+func capUpsN(s string, max int) string {
 	n := 0
 	var out strings.Builder
 	i := 0
@@ -360,7 +425,7 @@ func capUps(s string) string {
 		comp := s[i:j]
 		if strings.Trim(comp, "\x00") == ".." {
 			n++
-			if n > maxUps {
+			if n > max {
 				comp = "u"
 			}
 		}
